@@ -156,6 +156,10 @@ def mayCmpCss (a b : MUnit) : Bool :=
 /-- is the value a NaN (not comparable even with itself) -/
 def isNaN (x : α) : Bool := !feq x x
 
+/-- `Numeric::is_comparable`: same unit, one of them unitless, or convertible units -/
+def comparableU (a b : MUnit) : Bool :=
+  decide (a = b) || decide (a = .none) || decide (b = .none) || (unitScale (α := α) b a).isSome
+
 /-- the loop of `fn find_extreme` (after the first argument) -/
 def extremeLoop (q : MathQuirks) (pref : Ordering) (found : Q α) : List (Q α) → Res α
   | [] => .num found.v found.u
@@ -164,7 +168,9 @@ def extremeLoop (q : MathQuirks) (pref : Ordering) (found : Q α) : List (Q α) 
     | some o => extremeLoop q pref (if o = pref then found else v) rest
     | Option.none =>
       if q.extremeCssFallback then (if mayCmpCss found.u v.u then .cssCall else .err)
-      else if isNaN found.v || isNaN v.v then extremeLoop q pref found rest
+      -- since fix 424b303 (`strict`): comparable units without an order means one of the two
+      -- is NaN, which is neither larger nor smaller: the current candidate stays
+      else if comparableU (α := α) found.u v.u then extremeLoop q pref found rest
       else .err
 
 /-- `math.min` / `math.max` (`pref` = `.lt` / `.gt`) -/
